@@ -164,8 +164,10 @@ func (g *InterProceduralFlowGraph) BuildGraph() {
 
 	// Writes the summaries to file if the option is set
 	if summariesFile != nil {
-		// Read-only operation on summaries
-		go func() {
+		// Read-only operation on summaries. It runs synchronously: a detached goroutine here raced with the
+		// linking below and with on-demand summary construction, and was still writing (or had not started)
+		// when the deferred Close of the file ran, leaving the report empty or truncated.
+		func() {
 			for _, summary := range g.Summaries {
 				if summary == nil {
 					continue
